@@ -34,6 +34,15 @@ CLAIMS = {
             "answer every later history identically), C11_restart_identity, C11_codec (record format round trip for all int64 values; legacy "
             "records through a gob oracle); correspondence on raw record bytes, the real binary's export and import, identical probes on "
             "original and re-imported stores, restart, and legacy records produced by Go's gob encoder", "5 C11"),
+    "C07": ("Theorems C07_check_spec (the loop-shaped permission check equals its declarative first-bearing-item specification), "
+            "C07_whole_name_match (for every pattern of the modelled syntax and every name the repaired anchoring is a whole-name, "
+            "case-insensitive match; derivative matcher = relational semantics = textbook language), "
+            "C07_services_decide_on_resolved_account (signer, account and wallet management, creation); correspondence of Check() on "
+            "grammar-generated permission configurations, of signer requests by name and by key, and of the managers' results", "5 C07"),
+    "C18": ("Theorems C18_listing_sound_and_complete (membership in the answer <=> requested known wallet, account present in base or "
+            "overlay, name matches, Access permitted), C18_wallet_accounts, C18_created_account_listed; correspondence of the real lister "
+            "(service and gRPC handler) as a multiset, before and after dynamic account creation; soundness and completeness also "
+            "monitored with the real checker", "5 C18"),
 }
 
 
